@@ -593,7 +593,8 @@ class Parser:
                 self.next()
                 guard = self.expr()
             self.expect("=>")
-            body = self.expr()
+            # a block as arm body ends the arm: `=> { .. } (a, b) => ..` is not a call of the block
+            body = self.block() if self.at("{") else self.expr()
             if self.at(","):
                 self.next()
             arms.append((pat, guard, body))
@@ -638,7 +639,8 @@ class Parser:
         if self.peek()[0] == "op" and self.peek()[1] in ("=", "+=", "-=", "*=", "/=", "%=", "&=", "|=", "^=", "<<=", ">>="):
             op = self.next()[1]
             rhs = self.expr()
-            self.expect(";")
+            if not self.at("}"):          # an assignment may be the last thing in a block, without `;`
+                self.expect(";")
             return ("assign", e, op, rhs), False
         if self.at(";"):
             self.next()
